@@ -27,6 +27,13 @@ fn shim_ne_bytes(a: &[u8; 32], b: &[u8]) -> (r: bool) ensures r == !(a@ =~= b@) 
 fn shim_u256_eq(a: &U256, b: &U256) -> (r: bool) ensures r == (a@ =~= b@) { a == b }
 #[verifier::external_body]
 pub proof fn ax_g_order(k: int) requires k >= 0 ensures (g_smul(k, G()) == Pt::Inf) == (k % N() == 0) { }
+pub proof fn lemma_kdf_len(z: Seq<u8>, klen: nat) ensures s_kdf(z, klen).len() == klen
+{ lemma_kdf_blocks_len(z, ((klen + 31) / 32) as nat); }
+pub proof fn lemma_pow_one(e: nat, m: int) requires m > 1 ensures pow_mod(1, e, m) == 1 decreases e
+{ if e > 0 { lemma_pow_one((e - 1) as nat, m); lemma_small_mod(1, m as nat); } else { lemma_small_mod(1, m as nat); } }
+// z == 1 (Montgomery one): the Jacobian point is its own affine form
+pub proof fn lemma_z_one(z: Seq<u64>) requires fe(z) == 1 ensures val4(z) != 0, inv_p(fe(z)) == 1
+{ lemma_params(); lemma_pow_one((P() - 2) as nat, P()); if val4(z) == 0 { let v = val4(z); assert(v * RINV_P() == 0) by(nonlinear_arith) requires v == 0; lemma_small_mod(0, P() as nat); } }
 pub proof fn lemma_g_on_curve() ensures on_curve(G()) { lemma_params(); }
 
 // ---------------- GB/T 32918.2: digital signature ----------------
@@ -46,6 +53,10 @@ pub open spec fn sig_from_nonce(k: int, d: int, e: int, r: int, s: int) -> bool 
     &&& r == (e + pt_x(g_smul(k, G()))) % N() &&& r != 0 &&& r + k != N()
     &&& s == (inv_n(1 + d) * ((k - (r * d) % N()) % N())) % N() &&& s != 0
 }
+// ---------------- GB/T 32918.4: public key encryption ----------------
+pub open spec fn xy_bytes(q: Pt) -> Seq<u8> { be_bytes(pt_x(q), 32) + be_bytes(pt_y(q), 32) }
+pub open spec fn s_c3(q: Pt, m: Seq<u8>) -> Seq<u8> { sm3_spec(be_bytes(pt_x(q), 32) + m + be_bytes(pt_y(q), 32)) }
+pub open spec fn c1_len(compressed: bool) -> int { if compressed { 33 } else { 65 } }
 //@section code gm-sm2/src/u256.rs
 type U256 = [u64; 4];
 const SM2_ONE: U256 = [1, 0, 0, 0];
@@ -126,23 +137,140 @@ proof fn lemma_key_consts() ensures val4(SM2_N@) == N(), val4(SM2_N_MINUS_TWO@) 
 {
     assert(val4(SM2_N@) == N() && val4(SM2_N_MINUS_TWO@) == N() - 2 && val4(SM2_ONE@) == 1) by(compute);
 }
+spec fn ct_c2(ct: Seq<u8>, compressed: bool, model: Sm2Model) -> Seq<u8> {
+    match model { Sm2Model::C1C2C3 => ct.subrange(c1_len(compressed), ct.len() - 32), Sm2Model::C1C3C2 => ct.subrange(c1_len(compressed) + 32, ct.len() as int) }
+}
+spec fn ct_c3(ct: Seq<u8>, compressed: bool, model: Sm2Model) -> Seq<u8> {
+    match model { Sm2Model::C1C2C3 => ct.subrange(ct.len() - 32, ct.len() as int), Sm2Model::C1C3C2 => ct.subrange(c1_len(compressed), c1_len(compressed) + 32) }
+}
+// 7.1 B1-B7: what an accepted ciphertext satisfies, q = decoded C1, d = private scalar, m = returned plaintext
+spec fn dec_ok(d: int, ct: Seq<u8>, compressed: bool, model: Sm2Model, q: Pt, m: Seq<u8>) -> bool {
+    &&& ct.len() > c1_len(compressed) + 32
+    &&& sec1_decodes(ct.subrange(0, c1_len(compressed)), q) &&& on_curve(q)
+    &&& ({ let sp = g_smul(d, q); let c2 = ct_c2(ct, compressed, model);
+           m == s_xor(c2, s_kdf(xy_bytes(sp), c2.len())) && ct_c3(ct, compressed, model) == s_c3(sp, m) })
+}
+spec fn dec_accept(d: int, ct: Seq<u8>, compressed: bool, model: Sm2Model, m: Seq<u8>) -> bool { exists|q: Pt| #[trigger] dec_ok(d, ct, compressed, model, q, m) }
+// 6.1 A1-A8 for the nonce k
+spec fn enc_from_nonce(k: int, pa: Pt, m: Seq<u8>, compressed: bool, model: Sm2Model, c: Seq<u8>) -> bool {
+    &&& 1 <= k < N()
+    &&& ({ let c1 = sec1(g_smul(k, G()), compressed); let sp = g_smul(k, pa);
+           let c2 = s_xor(m, s_kdf(xy_bytes(sp), m.len())); let c3 = s_c3(sp, m);
+           c == (match model { Sm2Model::C1C2C3 => c1 + c2 + c3, Sm2Model::C1C3C2 => c1 + c3 + c2 }) })
+}
 // invariants the constructors establish
+spec fn s_id(id: Option<&'static str>) -> Seq<u8> { str_bytes(if id is Some { id->Some_0 } else { DEFAULT_ID }) }
 spec fn pk_ok(k: Sm2PublicKey) -> bool { valid(k.point) && val4(k.point.z@) != 0 }
 spec fn sk_ok(k: Sm2PrivateKey) -> bool { 1 <= val4(k.d@) <= N() - 2 && pk_ok(k.public_key) && abs(k.public_key.point) == g_smul(val4(k.d@), G()) }
 //@section code gm-sm2/src/key.rs
+enum Sm2Model {
+    C1C2C3,
+    C1C3C2,
+}
+
 #[derive(Debug, Clone, Copy)]
 struct Sm2PublicKey {
     point: Point,
 }
 
 impl Sm2PublicKey {
+    fn new(pk: &[u8]) -> (res: Sm2Result<Sm2PublicKey>)
+        ensures res is Ok ==> pk_ok(res->Ok_0) && sec1_decodes(pk@, abs(res->Ok_0.point)),
+            (pk@.len() != 33 && pk@.len() != 65) ==> res is Err,
+    {
+        let p = Point::from_byte(pk)?;
+        proof { assert(fe(p.z@) == 1 ==> val4(p.z@) != 0); }
+        if p.is_valid() {
+            Ok(Self { point: p })
+        } else {
+            Err(Sm2Error::InvalidPublic)
+        }
+    }
+
+    #[verifier::exec_allows_no_decreases_clause]
+    fn encrypt(&self, msg: &[u8], compressed: bool, model: Sm2Model) -> (res: Sm2Result<Vec<u8>>)
+        requires pk_ok(*self), 1 <= msg@.len() < 0x1_0000_0000
+        ensures res is Ok ==> (exists|k: Seq<u64>| #[trigger] csprng(k) && enc_from_nonce(val4(k), abs(self.point), msg@, compressed, model, res->Ok_0@)),
+    {
+        loop
+            invariant pk_ok(*self), 1 <= msg@.len() < 0x1_0000_0000,
+        {
+            let klen = msg.len();
+            let k = random_u256();
+            let c1_p = g_mul(&k);
+            let c1_p = c1_p.to_affine_point(); 
+
+            proof { lemma_key_consts(); lemma_params(); lemma_g_on_curve(); ax_g_order(val4(k@)); lemma_small_mod(val4(k@) as nat, N() as nat);
+                    assert(fe(c1_p.z@) == 1 ==> val4(c1_p.z@) != 0); }
+            let s_p = self.point.scalar_mul(&SM2_ONE);
+            if s_p.is_zero() {
+                return Err(Sm2Error::ZeroPoint);
+            }
+
+            let c2_p = self.point.scalar_mul(&k).to_affine_point();
+            let ghost sp = g_smul(val4(k@), abs(self.point));
+            let x2_bytes = fp_from_mont(&c2_p.x).to_byte_be();
+            let y2_bytes = fp_from_mont(&c2_p.y).to_byte_be();
+            let mut c2_append = vec![];
+            c2_append.extend_from_slice(&x2_bytes);
+            c2_append.extend_from_slice(&y2_bytes);
+            proof {
+                assert(x2_bytes@ == be_bytes(pt_x(sp), 32) && y2_bytes@ == be_bytes(pt_y(sp), 32));
+                assert(c2_append@ =~= xy_bytes(sp));
+                lemma_be_bytes_len(pt_x(sp), 32); lemma_be_bytes_len(pt_y(sp), 32);
+                assert(c2_append@.subrange(0, c2_append@.len() as int) =~= c2_append@);
+            }
+
+            let t = kdf(&c2_append[..], klen);
+            let mut flag = true;
+            for elem in t.iter() {
+                if elem != &0 {
+                    flag = false;
+                    break;
+                }
+            }
+            if !flag {
+                proof { lemma_kdf_len(xy_bytes(sp), klen as nat); assert(t@.subrange(0, t@.len() as int) =~= t@); }
+                let c2 = xor_bytes(msg, &t[..]);
+                let mut c3_append: Vec<u8> = vec![];
+                c3_append.extend_from_slice(&x2_bytes);
+                c3_append.extend_from_slice(msg);
+                c3_append.extend_from_slice(&y2_bytes);
+                proof { assert(c3_append@ =~= be_bytes(pt_x(sp), 32) + msg@ + be_bytes(pt_y(sp), 32)); }
+                let c3 = sm3_hash(&c3_append);
+                let mut c: Vec<u8> = vec![];
+                match model {
+                    Sm2Model::C1C2C3 => {
+                        c.extend_from_slice(&c1_p.to_byte_be(compressed));
+                        c.extend_from_slice(&c2);
+                        c.extend_from_slice(&c3);
+                    }
+                    Sm2Model::C1C3C2 => {
+                        c.extend_from_slice(&c1_p.to_byte_be(compressed));
+                        c.extend_from_slice(&c3);
+                        c.extend_from_slice(&c2);
+                    }
+                }
+                proof {
+                    let c1 = sec1(g_smul(val4(k@), G()), compressed);
+                    assert(abs(c1_p) == g_smul(val4(k@), G()));
+                    assert(c2@ == s_xor(msg@, s_kdf(xy_bytes(sp), msg@.len())));
+                    assert(c3@ == s_c3(sp, msg@));
+                    assert(c@ =~= (match model { Sm2Model::C1C2C3 => c1 + c2@ + c3@, Sm2Model::C1C3C2 => c1 + c3@ + c2@ }));
+                    assert(enc_from_nonce(val4(k@), abs(self.point), msg@, compressed, model, c@));
+                }
+                return Ok(c);
+            }
+        }
+    }
+
     fn verify(&self, id: Option<&'static str>, msg: &[u8], sig: &[u8]) -> (res: Sm2Result<()>)
         requires pk_ok(*self), msg@.len() < 0x1000_0000_0000_0000,
             id is Some ==> str_bytes(id->Some_0).len() < 0x1000_0000_0000_0000, str_bytes(DEFAULT_ID).len() < 0x1000_0000_0000_0000,
             // known finding D34 (no witness computable): e + x1 can exceed 2^256 + n - 1 and is then reduced wrongly
-            s_e(str_bytes(if id is Some { id->Some_0 } else { DEFAULT_ID }), abs(self.point), msg@) < r256() + N() - P(),
-        ensures res is Ok ==> sig@.len() == 64 && 8 * str_bytes(if id is Some { id->Some_0 } else { DEFAULT_ID }).len() <= 65535
-            && valid_sig(abs(self.point), s_e(str_bytes(if id is Some { id->Some_0 } else { DEFAULT_ID }), abs(self.point), msg@),
+            s_e(s_id(id), abs(self.point), msg@) < r256() + N() - P(),
+        ensures res is Ok ==> sig@.len() == 64 && 8 * s_id(id).len() <= 65535
+            && valid_sig(abs(self.point), s_e(s_id(id), abs(self.point), msg@),
                          be_val(sig@.subrange(0, 32)), be_val(sig@.subrange(32, 64))),
     {
         let id = shim_id_or_default(id);
@@ -212,5 +340,216 @@ impl Sm2PublicKey {
         } else {
             Err(Sm2Error::InvalidDigest)
         };
+    }
+}
+
+#[derive(Debug, Clone)]
+struct Sm2PrivateKey {
+    d: U256,
+    public_key: Sm2PublicKey,
+}
+
+impl Sm2PrivateKey {
+    fn new(sk: &[u8]) -> (res: Sm2Result<Self>)
+        ensures res is Ok ==> sk@.len() == 32 && sk_ok(res->Ok_0) && val4(res->Ok_0.d@) == be_val(sk@),
+            (sk@.len() != 32 || be_val(sk@) == 0 || be_val(sk@) > N() - 2) ==> res is Err,
+    {
+        if sk.len() != 32 {
+            return Err(Sm2Error::InvalidFieldLen);
+        }
+        proof { lemma_key_consts(); assert(sk@.subrange(0, 32) =~= sk@); }
+        let d = u256_from_be_bytes(sk);
+        
+        if d.is_zero() || u256_cmp(&d, &SM2_N_MINUS_TWO) > 0 {
+            return Err(Sm2Error::InvalidPrivate);
+        }
+        let public_key = public_from_private(&d)?;
+        let private_key = Self { d, public_key };
+        Ok(private_key)
+    }
+
+    fn sign(&self, id: Option<&'static str>, msg: &[u8]) -> (res: Sm2Result<Vec<u8>>)
+        requires sk_ok(*self), msg@.len() < 0x1000_0000_0000_0000,
+            id is Some ==> str_bytes(id->Some_0).len() < 0x1000_0000_0000_0000, str_bytes(DEFAULT_ID).len() < 0x1000_0000_0000_0000,
+            // known finding D34 (no witness computable): e + x1 >= 2n is reduced only once, r would not be canonical
+            s_e(s_id(id), abs(self.public_key.point), msg@) < 2 * N() - P(),
+        ensures
+            res is Ok <==> 8 * s_id(id).len() <= 65535,
+            res is Ok ==> res->Ok_0@.len() == 64 && (exists|k: Seq<u64>| #[trigger] csprng(k) && sig_from_nonce(val4(k), val4(self.d@),
+                s_e(s_id(id), abs(self.public_key.point), msg@),
+                be_val(res->Ok_0@.subrange(0, 32)), be_val(res->Ok_0@.subrange(32, 64)))),
+    {
+        let id = shim_id_or_default(id);
+        let mut digest = compute_za(id, &self.public_key.point)?;
+        proof { lemma_sm3_len(s_za(str_bytes(id), pt_x(abs(self.public_key.point)), pt_y(abs(self.public_key.point))) + msg@); }
+        digest = sm3_hash(&shim_concat2(digest.to_vec(), msg.to_vec()));
+        proof { assert(digest@.subrange(0, 32) =~= digest@); }
+        self.sign_raw(&digest[..], &self.d)
+    }
+
+    #[verifier::exec_allows_no_decreases_clause]
+    fn sign_raw(&self, digest: &[u8], sk: &U256) -> (res: Sm2Result<Vec<u8>>)
+        requires 1 <= val4(sk@) <= N() - 2,
+            digest@.len() == 32 ==> be_val(digest@) < 2 * N() - P(),   // known finding D34, see sign
+        ensures res is Ok <==> digest@.len() == 32,
+            res is Ok ==> res->Ok_0@.len() == 64 && (exists|k: Seq<u64>| #[trigger] csprng(k) && sig_from_nonce(val4(k), val4(sk@), be_val(digest@),
+                be_val(res->Ok_0@.subrange(0, 32)), be_val(res->Ok_0@.subrange(32, 64)))),
+    {
+        if digest.len() != 32 {
+            return Err(Sm2Error::InvalidDigestLen);
+        }
+        proof { lemma_key_consts(); lemma_params(); lemma_g_on_curve(); assert(digest@.subrange(0, 32) =~= digest@); }
+        let e = u256_from_be_bytes(&digest);
+        let n = &SM2_N;
+        let s1 = fn_pow(&u256_add(&SM2_ONE, &sk).0, &SM2_N_MINUS_TWO);
+        loop
+            invariant digest@.len() == 32, val4(e@) == be_val(digest@), val4(e@) < 2 * N() - P(), n@ == SM2_N@, 1 <= val4(sk@) <= N() - 2,
+                val4(s1@) == inv_n(1 + val4(sk@)),
+        {
+            let k = random_u256();
+            let p_x = g_mul(&k).to_affine_point();
+            proof {
+                ax_g_order(val4(k@)); lemma_small_mod(val4(k@) as nat, N() as nat);
+                let b = be_bytes(fe(p_x.x@), 32);
+                lemma_be_bytes_len(fe(p_x.x@), 32); lemma_pow256n_32(); lemma_be_roundtrip(fe(p_x.x@), 32);
+                assert(b.subrange(0, 32) =~= b);
+            }
+            let x1 = u256_from_be_bytes(&fp_from_mont(&p_x.x).to_byte_be());
+            let r = fn_add(&e, &x1);
+            proof {
+                assert forall|a: Seq<u64>| a.len() == 4 && #[trigger] val4(a) == N() implies a =~= SM2_N@ by { lemma_val4_inj(a, SM2_N@); }
+            }
+            if r.is_zero() || shim_u256_eq(&u256_add(&r, &k).0, n) {
+                continue;
+            }
+            let s2_1 = fn_mul(&r, &sk);
+            let s2 = fn_sub(&k, &s2_1);
+            let s = fn_mul(&s1, &s2);
+            if s.is_zero() {
+                continue;
+            }
+            let mut sig: Vec<u8> = vec![];
+            sig.extend_from_slice(&r.to_byte_be());
+            sig.extend_from_slice(&s.to_byte_be());
+            proof {
+                lemma_be_bytes_len(val4(r@), 32); lemma_be_bytes_len(val4(s@), 32);
+                lemma_be_roundtrip(val4(r@), 32); lemma_be_roundtrip(val4(s@), 32);
+                assert(sig@.subrange(0, 32) =~= be_bytes(val4(r@), 32));
+                assert(sig@.subrange(32, 64) =~= be_bytes(val4(s@), 32));
+                lemma_val4_bounds(r@); lemma_val4_bounds(k@); lemma_val4_bounds(n@);
+                assert(sig_from_nonce(val4(k@), val4(sk@), be_val(digest@), val4(r@), val4(s@)));
+            }
+            return Ok(sig);
+        }
+    }
+    fn decrypt(
+        &self,
+        ciphertext: &[u8],
+        compressed: bool,
+        model: Sm2Model,
+    ) -> (res: Sm2Result<Vec<u8>>)
+        requires sk_ok(*self), ciphertext@.len() < 0x1_0000_0000
+        ensures res is Ok ==> dec_accept(val4(self.d@), ciphertext@, compressed, model, res->Ok_0@),
+    {
+        let c1_end_index = match compressed {
+            true => 33,
+            false => 65,
+        };
+        if ciphertext.len() <= c1_end_index + 32 {
+            return Err(Sm2Error::InvalidFieldLen);
+        }
+        let c1_bytes = &ciphertext[0..c1_end_index];
+        let len = ciphertext.len();
+        let c2_bytes = match model {
+            Sm2Model::C1C2C3 => &ciphertext[c1_end_index..(len - 32)],
+            Sm2Model::C1C3C2 => &ciphertext[(c1_end_index + 32)..],
+        };
+        let c3_bytes = match model {
+            Sm2Model::C1C2C3 => &ciphertext[(len - 32)..],
+            Sm2Model::C1C3C2 => &ciphertext[c1_end_index..c1_end_index + 32],
+        };
+
+        let kelen = c2_bytes.len();
+        let c1_point = Point::from_byte(c1_bytes)?;
+        proof { lemma_key_consts(); lemma_params(); lemma_z_one(c1_point.z@); }
+        if !c1_point.to_affine_point().is_valid_affine_point() {
+            return Err(Sm2Error::CheckPointErr);
+        }
+        let ghost q = abs(c1_point);
+
+        let s_point = c1_point.scalar_mul(&SM2_ONE);
+        if s_point.is_zero() {
+            return Err(Sm2Error::ZeroPoint);
+        }
+
+        let c2_point = c1_point.scalar_mul(&self.d).to_affine_point();
+        let ghost sp = g_smul(val4(self.d@), q);
+        let x2_bytes = fp_from_mont(&c2_point.x).to_byte_be();
+        let y2_bytes = fp_from_mont(&c2_point.y).to_byte_be();
+        let mut prepend: Vec<u8> = vec![];
+        prepend.extend_from_slice(&x2_bytes);
+        prepend.extend_from_slice(&y2_bytes);
+        proof {
+            assert(prepend@ =~= xy_bytes(sp));
+            lemma_be_bytes_len(pt_x(sp), 32); lemma_be_bytes_len(pt_y(sp), 32);
+        }
+        let t = kdf(&prepend, kelen);
+        let mut flag = true;
+        for elem in t.iter() {
+            if elem != &0 {
+                flag = false;
+                break;
+            }
+        }
+        if flag {
+            return Err(Sm2Error::ZeroData);
+        }
+
+        proof { lemma_kdf_len(xy_bytes(sp), kelen as nat); }
+        let m = xor_bytes(c2_bytes, &t);
+        let mut mb = m;
+        if mb.len() < kelen {
+            for i in 0..kelen - mb.len()
+                invariant i <= mb@.len(),
+            {
+                mb.insert(i, 0);
+            }
+        }
+        let mut prepend: Vec<u8> = vec![];
+        prepend.extend_from_slice(&x2_bytes);
+        prepend.extend_from_slice(&mb);
+        prepend.extend_from_slice(&y2_bytes);
+        proof { assert(prepend@ =~= be_bytes(pt_x(sp), 32) + mb@ + be_bytes(pt_y(sp), 32)); }
+        let u = sm3_hash(&prepend);
+        if shim_ne_bytes(&u, c3_bytes) {
+            return Err(Sm2Error::HashNotEqual);
+        }
+        proof { assert(dec_ok(val4(self.d@), ciphertext@, compressed, model, q, mb@));
+            assert(dec_accept(val4(self.d@), ciphertext@, compressed, model, mb@)); }
+        Ok(mb)
+    }
+
+}
+
+fn gen_keypair() -> (res: Sm2Result<(Sm2PublicKey, Sm2PrivateKey)>)
+    ensures res is Ok ==> pk_ok(res->Ok_0.0) && res->Ok_0.1.public_key == res->Ok_0.0 && csprng(res->Ok_0.1.d@)
+        && 1 <= val4(res->Ok_0.1.d@) < N() && abs(res->Ok_0.0.point) == g_smul(val4(res->Ok_0.1.d@), G()),
+{
+    let d = random_u256();
+    let pk = public_from_private(&d)?;
+    let sk = Sm2PrivateKey { d, public_key: pk };
+    Ok((pk, sk))
+}
+
+fn public_from_private(sk: &U256) -> (res: Sm2Result<Sm2PublicKey>)
+    requires 1 <= val4(sk@) < N()
+    ensures res is Ok, pk_ok(res->Ok_0), abs(res->Ok_0.point) == g_smul(val4(sk@), G())
+{
+    let p = g_mul(&sk);
+    proof { ax_g_order(val4(sk@)); lemma_small_mod(val4(sk@) as nat, N() as nat); lemma_g_on_curve(); }
+    if p.is_valid() {
+        Ok(Sm2PublicKey { point: p })
+    } else {
+        Err(Sm2Error::InvalidPublic)
     }
 }
